@@ -634,12 +634,18 @@ theorem plan_crop_of_pad (shape : List Nat) (w : List (Nat × Nat)) (hw : w.leng
     · rw [show (w[i]) = ((w[i]).1, (w[i]).2) from rfl] at *
       simp only [this]
     · rfl
+  have hsel2 : ∀ x ∈ (padShape shape w).zip (w.map cropSlice), ∀ u, selOf2 u x.1 x.2 = selOf x.1 x.2 := by
+    intro x hx u
+    have hx2 := (List.of_mem_zip hx).2
+    simp only [List.mem_map] at hx2
+    obtain ⟨p, _, hp⟩ := hx2
+    rw [← hp]; rfl
   unfold plan
   rw [hexp]
   simp only
   rw [mapMExcept_ok (fun (p : Nat × Item) => selOfBasic p.1 p.2) _ _ (fun x hx => by rw [(hsel x hx).2]; exact (hsel x hx).1)]
   simp only
-  rw [mapMExcept_ok (fun (p : Nat × Item) => selOf p.1 p.2) _ _ (fun x hx => (hsel x hx).1)]
+  rw [mapMExcept_ok (fun (p : Nat × Item) => selOf2 _ p.1 p.2) _ _ (fun x hx => by rw [hsel2 x hx]; exact (hsel x hx).1)]
   simp only
   -- the selectors, as a list
   have hsels : ((padShape shape w).zip (w.map cropSlice)).map (fun (x : Nat × Item) =>
